@@ -511,6 +511,10 @@ def main():
                         w = witness.gen_refmodel(pid, fake)
                     if w is None and pid in ('C05',):
                         w = witness.gen_clock(pid, fake)
+                    if w is None and pid in ('C05', 'C08'):
+                        w = witness.gen_sock_timed(pid, fake)
+                    if w is None and pid in ('C19',):
+                        w = witness.gen_sock(pid, fake)
                     if w is None and pid in ('C03', 'C04'):
                         w = witness.gen_conc_store(pid, fake) or (witness.gen_steps_lin(pid, fake) if pid == 'C03' else None)
                     if w is None and pid in ('C09', 'C10', 'C12', 'C13', 'C18'):
@@ -577,6 +581,16 @@ def main():
                 if w: undecided.append('step-level schedule grid: %s (although every obligation is discharged or known)' % w['what'])
             except Exception as e:
                 thorough['step_level_schedules_error'] = repr(e)
+        if pid in ('C05', 'C08'):
+            try:
+                import replaytool, witness
+                ok, err = replaytool.build_replay_bin()
+                if ok:
+                    w = witness.gen_sock_timed(pid, {'full': 'server/flush'})
+                    thorough['socket_timed_pipelines'] = {'bounded': 'four phased pipelines over TCP with the server clock advanced between phases (delayed flush + later store, quiet variant, identical re-store, immediate flush)', 'pipelines': witness.gen_sock_timed.last_count, 'mismatch': (w or {}).get('what')}
+                    if w: undecided.append('timed socket twin disagrees with the real server although every obligation is discharged: %s' % w['what'][:300])
+            except Exception as e:
+                thorough['socket_timed_error'] = repr(e)
         if pid == 'C11':
             try:
                 import replaytool, witness
